@@ -25,8 +25,8 @@ theorem vsys_nodes (s : PSys) (i : Nat) (n : PNode) (g : List Grant) (el : List 
 
 theorem vsys_mk (f : Nat → PNode) (i : Nat) (n : PNode) (r : List VoteReq) (g : List Grant) (a : List Ack)
     (ap : List App) (hb : List HB) (sn : List Snap) (cl : List Claim) (ll : Nat → List LEntry)
-    (el : List (Nat × Nat)) :
-    vsys ⟨upd f i n, r, g, a, ap, hb, sn, cl, ll, el⟩ =
+    (el : List (Nat × Nat)) (eg : Nat → List LEntry) (rg : List (Grant × VGhost)) (cm : List (Nat × Nat)) :
+    vsys ⟨upd f i n, r, g, a, ap, hb, sn, cl, ll, el, eg, rg, cm⟩ =
       { nodes := updV (fun j => vproj (f j)) i (vproj n), grants := g, elected := el } := by
   simp only [vsys, vproj_upd]
 
@@ -34,8 +34,9 @@ theorem vsys_mk' (s : PSys) : (vsys s) = { nodes := fun j => vproj (s.nodes j), 
 
 theorem vsys_mk_same (s : PSys) (i : Nat) (n : PNode) (r : List VoteReq) (a : List Ack)
     (ap : List App) (hb : List HB) (sn : List Snap) (cl : List Claim) (ll : Nat → List LEntry)
+    (eg : Nat → List LEntry) (rg : List (Grant × VGhost)) (cm : List (Nat × Nat))
     (hp : vproj n = vproj (s.nodes i)) :
-    vsys ⟨upd s.nodes i n, r, s.grants, a, ap, hb, sn, cl, ll, s.elected⟩ = vsys s := by
+    vsys ⟨upd s.nodes i n, r, s.grants, a, ap, hb, sn, cl, ll, s.elected, eg, rg, cm⟩ = vsys s := by
   rw [vsys_mk, hp]
   simp only [vsys]
   congr
@@ -98,6 +99,18 @@ theorem filterMap_eraseIdx_some {α β} (f : α → Option β) :
       | none => exact ⟨k', by simpa using h1, by simpa using h2⟩
       | some b => exact ⟨k' + 1, by simpa using h1, by simp [h2]⟩
 
+theorem filterMap_grantOf_acks (l : List OMsg) : (l.filter OMsg.isAck).filterMap grantOf = [] := by
+  induction l with
+  | nil => rfl
+  | cons a l ih =>
+    cases a with
+    | voteReq t c lt li => simpa [List.filter_cons, OMsg.isAck] using ih
+    | grant t v c gh => simpa [List.filter_cons, OMsg.isAck] using ih
+    | ack t f idx pre =>
+      rw [List.filter_cons]
+      simp only [OMsg.isAck, if_true, List.filterMap_cons, grantOf]
+      exact ih
+
 theorem og_append_nongrant (n : PNode) (m : OMsg) (hm : grantOf m = none) :
     (n.outbox ++ [m]).filterMap grantOf = n.outbox.filterMap grantOf := by
   simp [List.filterMap_append, hm]
@@ -124,7 +137,7 @@ theorem invV_step (c0 : Cfg) (s s' : PSys) (e : Event) (hc : e.cfgOk c0)
     · rename_i hg
       cases h
       rw [vsys_mk]; show InvV c0 (setN (vsys s) i _)
-      have : vproj { s.nodes i with vote := i, role := 1, outbox := (s.nodes i).outbox ++ [.voteReq (s.nodes i).term i (lastTerm (s.nodes i).log) (s.nodes i).log.length, .grant (s.nodes i).term i i] }
+      have : vproj { s.nodes i with vote := i, role := 1, outbox := (s.nodes i).outbox ++ [.voteReq (s.nodes i).term i (lastTerm (s.nodes i).log) (s.nodes i).log.length, .grant (s.nodes i).term i i ⟨(s.nodes i).log, !(s.elected.any (fun p => p.1 = (s.nodes i).term)), lastTerm (s.nodes i).log, (s.nodes i).log.length⟩] }
           = nCampaign ((vsys s).nodes i) i := by
         simp [vproj, nCampaign, vsys, List.filterMap_append, List.filterMap_cons, grantOf]
       rw [this]
@@ -133,14 +146,17 @@ theorem invV_step (c0 : Cfg) (s s' : PSys) (e : Event) (hc : e.cfgOk c0)
   | grant i c =>
     simp only [applyEvent, ok] at h
     split at h
-    · rename_i hg
-      cases h
-      rw [vsys_mk]; show InvV c0 (setN (vsys s) i _)
-      have : vproj { s.nodes i with vote := c, role := 0, outbox := (s.nodes i).outbox ++ [.grant (s.nodes i).term i c] }
-          = nGrant ((vsys s).nodes i) i c := by
-        simp [vproj, nGrant, vsys, List.filterMap_append, grantOf]
-      rw [this]
-      exact invV_grant hI i c hg.2.2.2.1 hg.2.2.1
+    · rename_i r hr
+      split at h
+      · rename_i hg
+        cases h
+        rw [vsys_mk]; show InvV c0 (setN (vsys s) i _)
+        have : vproj { s.nodes i with vote := c, role := 0, outbox := (s.nodes i).outbox ++ [.grant (s.nodes i).term i c ⟨(s.nodes i).log, !(s.elected.any (fun p => p.1 = (s.nodes i).term)), r.lastTerm, r.lastIdx⟩] }
+            = nGrant ((vsys s).nodes i) i c := by
+          simp [vproj, nGrant, vsys, List.filterMap_append, grantOf]
+        rw [this]
+        exact invV_grant hI i c hg.2.2.2.1 hg.2.2.1
+      · cases h
     · cases h
   | rdy i =>
     simp only [applyEvent, ok] at h
@@ -161,7 +177,7 @@ theorem invV_step (c0 : Cfg) (s s' : PSys) (e : Event) (hc : e.cfgOk c0)
       · rename_i im him
         cases h
         rw [vsys_mk]; show InvV c0 (setN (vsys s) i _)
-        have : vproj { s.nodes i with dterm := im.term, dvote := im.vote, dlog := im.log, dcommit := im.commit, pending := (s.nodes i).pending.drop k }
+        have : vproj { s.nodes i with dterm := im.term, dvote := im.vote, dlog := im.log, dcommit := im.commit, dacks := im.acks, pending := (s.nodes i).pending.drop k }
             = nPersist ((vsys s).nodes i) (im.term, im.vote) k := by
           simp [vproj, nPersist, vsys, List.map_drop]
         rw [this]
@@ -172,42 +188,51 @@ theorem invV_step (c0 : Cfg) (s s' : PSys) (e : Event) (hc : e.cfgOk c0)
   | release i key =>
     simp only [applyEvent, ok] at h
     split at h
-    · rename_i k hk
+    · -- an acknowledgement: nothing of the vote layer changes
       split at h
       · rename_i m hm
         split at h
         · rename_i hg
           cases m with
-          | voteReq t c lt li =>
-            simp only [addReleased] at h
-            cases h
-            apply invV_of_eq hI
-            apply vsys_mk_same s i
-            simp only [vproj]
-            rw [filterMap_eraseIdx_none grantOf _ k _ hm rfl]
           | ack t f idx pre =>
             simp only [addReleased] at h
             cases h
-            apply invV_of_eq hI
-            apply vsys_mk_same s i
-            simp only [vproj]
-            rw [filterMap_eraseIdx_none grantOf _ k _ hm rfl]
-          | grant t vv c =>
-            simp only [addReleased] at h
-            cases h
-            obtain ⟨k', h1, h2⟩ := filterMap_eraseIdx_some grantOf _ k _ ⟨t, vv, c⟩ hm rfl
-            rw [vsys_mk]; show InvV c0 { setN (vsys s) i _ with grants := ⟨t, vv, c⟩ :: (vsys s).grants }
-            have : vproj { s.nodes i with outbox := (s.nodes i).outbox.eraseIdx k }
-                = nRelease ((vsys s).nodes i) k' := by
-              simp only [vproj, nRelease, vsys, h2]
-            rw [this]
-            apply invV_release hI i k' ⟨t, vv, c⟩ h1
-            have hr := hg.2
-            simp only [releasable, Bool.or_eq_true, Bool.and_eq_true, decide_eq_true_eq] at hr
-            exact hr
+            exact hI
+          | voteReq t c lt li => simp [OMsg.isAck] at hg
+          | grant t vv c gh => simp [OMsg.isAck] at hg
         · cases h
       · cases h
-    · cases h
+    · split at h
+      · rename_i k hk
+        split at h
+        · rename_i m hm
+          split at h
+          · rename_i hg
+            cases m with
+            | voteReq t c lt li =>
+              simp only [addReleased] at h
+              cases h
+              apply invV_of_eq hI
+              apply vsys_mk_same s i
+              simp only [vproj]
+              rw [filterMap_eraseIdx_none grantOf _ k _ hm rfl]
+            | ack t f idx pre => simp [OMsg.isAck] at hg
+            | grant t vv c gh =>
+              simp only [addReleased] at h
+              cases h
+              obtain ⟨k', h1, h2⟩ := filterMap_eraseIdx_some grantOf _ k _ ⟨t, vv, c⟩ hm rfl
+              rw [vsys_mk]; show InvV c0 { setN (vsys s) i _ with grants := ⟨t, vv, c⟩ :: (vsys s).grants }
+              have : vproj { s.nodes i with outbox := (s.nodes i).outbox.eraseIdx k }
+                  = nRelease ((vsys s).nodes i) k' := by
+                simp only [vproj, nRelease, vsys, h2]
+              rw [this]
+              apply invV_release hI i k' ⟨t, vv, c⟩ h1
+              have hr := hg.2.1
+              simp only [releasable, Bool.or_eq_true, Bool.and_eq_true, decide_eq_true_eq] at hr
+              exact hr
+          · cases h
+        · cases h
+      · cases h
   | crash i =>
     simp only [applyEvent, ok] at h
     split at h
@@ -220,6 +245,10 @@ theorem invV_step (c0 : Cfg) (s s' : PSys) (e : Event) (hc : e.cfgOk c0)
     split at h
     · cases h
       rw [vsys_mk]; show InvV c0 (setN (vsys s) i _)
+      have : vproj { s.nodes i with up := true, term := (s.nodes i).dterm, vote := (s.nodes i).dvote, log := (s.nodes i).dlog, commit := (s.nodes i).dcommit, role := 0, pending := [], outbox := (s.nodes i).dacks.filter OMsg.isAck }
+          = nRestart ((vsys s).nodes i) := by
+        simp [vproj, nRestart, vsys, filterMap_grantOf_acks]
+      rw [this]
       exact invV_restart hI i
     · cases h
   | win i cfg q =>
@@ -250,7 +279,7 @@ theorem invV_step (c0 : Cfg) (s s' : PSys) (e : Event) (hc : e.cfgOk c0)
     simp only [applyEvent, ok] at h
     split at h
     · cases h
-      exact invV_of_eq hI (vsys_mk_same s i _ _ _ _ _ _ _ _ rfl)
+      exact invV_of_eq hI (vsys_mk_same s i _ _ _ _ _ _ _ _ _ _ _ rfl)
     · cases h
   | sendApp i m =>
     simp only [applyEvent, ok] at h
@@ -276,29 +305,37 @@ theorem invV_step (c0 : Cfg) (s s' : PSys) (e : Event) (hc : e.cfgOk c0)
       apply vsys_mk_same s i
       simp [vproj, List.filterMap_append, grantOf]
     · cases h
+  | ackSelf i idx =>
+    simp only [applyEvent, ok] at h
+    split at h
+    · cases h
+      apply invV_of_eq hI
+      apply vsys_mk_same s i
+      simp [vproj, List.filterMap_append, grantOf]
+    · cases h
   | commitLeader i c cfg q =>
     simp only [applyEvent, ok] at h
     split at h
     · cases h
-      exact invV_of_eq hI (vsys_mk_same s i _ _ _ _ _ _ _ _ rfl)
+      exact invV_of_eq hI (vsys_mk_same s i _ _ _ _ _ _ _ _ _ _ _ rfl)
     · cases h
   | commitApp i c m =>
     simp only [applyEvent, ok] at h
     split at h
     · cases h
-      exact invV_of_eq hI (vsys_mk_same s i _ _ _ _ _ _ _ _ rfl)
+      exact invV_of_eq hI (vsys_mk_same s i _ _ _ _ _ _ _ _ _ _ _ rfl)
     · cases h
   | commitHB i c m =>
     simp only [applyEvent, ok] at h
     split at h
     · cases h
-      exact invV_of_eq hI (vsys_mk_same s i _ _ _ _ _ _ _ _ rfl)
+      exact invV_of_eq hI (vsys_mk_same s i _ _ _ _ _ _ _ _ _ _ _ rfl)
     · cases h
   | commitClaim i m =>
     simp only [applyEvent, ok] at h
     split at h
     · cases h
-      exact invV_of_eq hI (vsys_mk_same s i _ _ _ _ _ _ _ _ rfl)
+      exact invV_of_eq hI (vsys_mk_same s i _ _ _ _ _ _ _ _ _ _ _ rfl)
     · cases h
   | sendHB i to c =>
     simp only [applyEvent, ok] at h
@@ -334,7 +371,7 @@ theorem invV_step (c0 : Cfg) (s s' : PSys) (e : Event) (hc : e.cfgOk c0)
     split at h
     · split at h
       · cases h
-        exact invV_of_eq hI (vsys_mk_same s i _ _ _ _ _ _ _ _ rfl)
+        exact invV_of_eq hI (vsys_mk_same s i _ _ _ _ _ _ _ _ _ _ _ rfl)
       · cases h
     · cases h
   | bootstrap i donor idx =>
